@@ -58,6 +58,14 @@ func H_ReplayReproduces() {
 	defer cancel()
 	st := state.WrapCore(namespaced.NewState(inmem.Build))
 	na := 2
+	if verif.Tier() == "thorough" {
+		// thorough = (<=1 write under the delay bound 1) + (<=2 writes under the delay bound 0)
+		if verif.Choose("moreWrites", 2) == 1 {
+			verif.SetPreemptions(0)
+		} else {
+			na = 1
+		}
+	}
 	// pre-state: each id absent, running or tearing down (at some version)
 	for _, id := range ids {
 		pre := verif.Choose("pre", 3)
